@@ -296,3 +296,142 @@ Definition expiry_early (v : volume) (n : needle) : bool :=
    Crtime is stored in whole seconds; expired iff Crtime + TtlSec is Before(now) *)
 Definition entry_visible (now : N) (crtime_s : N) (ttl_sec : Z) : bool :=
   negb ((0 <? ttl_sec)%Z && (crtime_s * NS + Z.to_N ttl_sec * NS <? now)).
+
+(* ---------- filer: entries of one directory over histories ----------
+   weed/filer/filer.go CreateEntry / UpdateEntry / FindEntry / doListDirectoryEntries,
+   weed/server/filer_grpc_server.go UpdateEntry (FindEntry, then Filer.UpdateEntry).
+   The store keeps Crtime and Mtime in whole seconds.  Every operation reads the
+   clock once ([now], nanoseconds).  The expiry test reads Crtime, never Mtime;
+   Filer.UpdateEntry copies the old entry's Crtime into the new one. *)
+Record fentry := {
+  fe_crtime : N;          (* Attr.Crtime, seconds *)
+  fe_mtime : N;           (* Attr.Mtime, seconds *)
+  fe_ttl : Z;             (* Attr.TtlSec, int32 *)
+  fe_chunks : list N      (* ids of the chunks the entry points at *)
+}.
+
+Definition fstore := list (N * fentry).     (* name id -> entry *)
+
+Fixpoint fs_get (st : fstore) (p : N) : option fentry :=
+  match st with
+  | [] => None
+  | (q, e) :: r => if p =? q then Some e else fs_get r p
+  end.
+
+(* insert or replace, keeping ascending name order (the order a listing returns) *)
+Fixpoint fs_put (st : fstore) (p : N) (e : fentry) : fstore :=
+  match st with
+  | [] => [(p, e)]
+  | (q, x) :: r =>
+      if p =? q then (p, e) :: r
+      else if p <? q then (p, e) :: st
+      else (q, x) :: fs_put r p e
+  end.
+
+Definition fs_del (st : fstore) (p : N) : fstore := filter (fun qe => negb (fst qe =? p)) st.
+
+Definition fe_visible (now : N) (e : fentry) : bool := entry_visible now (fe_crtime e) (fe_ttl e).
+
+(* Filer.FindEntry: an expired entry is deleted from the store and not returned *)
+Definition filer_find (now : N) (st : fstore) (p : N) : fstore * option fentry :=
+  match fs_get st p with
+  | None => (st, None)
+  | Some e => if fe_visible now e then (st, Some e) else (fs_del st p, None)
+  end.
+
+(* Filer.UpdateEntry(old, e): entry.Attr.Crtime = oldEntry.Attr.Crtime; Store.UpdateEntry *)
+Definition fe_merge (old e : fentry) : fentry :=
+  {| fe_crtime := fe_crtime old; fe_mtime := fe_mtime e; fe_ttl := fe_ttl e; fe_chunks := fe_chunks e |}.
+
+(* doListDirectoryEntries: expired entries are deleted and skipped *)
+Definition fs_expire (now : N) (st : fstore) : fstore := filter (fun qe => fe_visible now (snd qe)) st.
+
+Inductive fop :=
+| FInsert (p : N) (e : fentry)                 (* Store.InsertEntry: the entry exactly as given *)
+| FCreate (p : N) (e : fentry) (excl : bool)   (* Filer.CreateEntry(entry, o_excl) *)
+| FUpdate (p : N) (e : fentry)                 (* gRPC UpdateEntry: FindEntry, Filer.UpdateEntry(old, e) *)
+| FFind (p : N)                                (* Filer.FindEntry *)
+| FList                                        (* Filer.ListDirectoryEntries of the directory *)
+| FDelete (p : N).                             (* Store.DeleteEntry *)
+
+Inductive fres :=
+| RDone (err : N)                              (* 0 ok, 1 EEXIST, 2 not found *)
+| RFound (o : option fentry)
+| RListed (l : list (N * fentry)).
+
+Definition filer_step (now : N) (st : fstore) (o : fop) : fstore * fres :=
+  match o with
+  | FInsert p e => (fs_put st p e, RDone 0)
+  | FCreate p e excl =>
+      let '(st1, old) := filer_find now st p in
+      match old with
+      | None => (fs_put st1 p e, RDone 0)
+      | Some oe => if excl then (st1, RDone 1) else (fs_put st1 p (fe_merge oe e), RDone 0)
+      end
+  | FUpdate p e =>
+      let '(st1, old) := filer_find now st p in
+      match old with
+      | None => (st1, RDone 2)
+      | Some oe => (fs_put st1 p (fe_merge oe e), RDone 0)
+      end
+  | FFind p => let '(st1, r) := filer_find now st p in (st1, RFound r)
+  | FList => (fs_expire now st, RListed (fs_expire now st))
+  | FDelete p => (fs_del st p, RDone 0)
+  end.
+
+(* a history: every operation with the clock it read; the result and the store after it *)
+Fixpoint filer_run (st : fstore) (l : list (N * fop)) : fstore * list (fres * fstore) :=
+  match l with
+  | [] => (st, [])
+  | (now, o) :: r =>
+      let '(st1, res) := filer_step now st o in
+      let '(st2, out) := filer_run st1 r in
+      (st2, (res, st1) :: out)
+  end.
+
+(* the data an entry points at outlives the entry: chunk [n] can be read at every
+   instant at which an entry with this Crtime and TtlSec is visible *)
+Definition chunk_outlives (crtime_s : N) (ttl_sec : Z) (n : needle) : bool :=
+  negb (expiring n) ||
+  ((0 <? ttl_sec)%Z && (crtime_s * NS + Z.to_N ttl_sec * NS <? read_deadline n)).
+
+Definition fe_safe (tab : N -> needle) (e : fentry) : bool :=
+  forallb (fun c => chunk_outlives (fe_crtime e) (fe_ttl e) (tab c)) (fe_chunks e).
+
+(* the entry an operation leaves in the store *)
+Definition fop_stored (now : N) (st : fstore) (o : fop) : option fentry :=
+  match o with
+  | FInsert p e => Some e
+  | FCreate p e excl =>
+      match snd (filer_find now st p) with
+      | None => Some e
+      | Some oe => if excl then None else Some (fe_merge oe e)
+      end
+  | FUpdate p e =>
+      match snd (filer_find now st p) with
+      | None => None
+      | Some oe => Some (fe_merge oe e)
+      end
+  | _ => None
+  end.
+
+(* decidable discipline of a history: whatever a write leaves in the store points
+   only at chunks that outlive it *)
+Fixpoint filer_run_safe (tab : N -> needle) (st : fstore) (l : list (N * fop)) : bool :=
+  match l with
+  | [] => true
+  | (now, o) :: r =>
+      match fop_stored now st o with Some e => fe_safe tab e | None => true end &&
+      filer_run_safe tab (fst (filer_step now st o)) r
+  end.
+
+(* an operation that neither removes nor re-inserts name p behind the filer's back
+   and, when it writes p, keeps TtlSec = s *)
+Definition fop_keeps (p : N) (s : Z) (o : fop) : bool :=
+  match o with
+  | FInsert q _ => negb (q =? p)
+  | FDelete q => negb (q =? p)
+  | FCreate q e _ => negb (q =? p) || (fe_ttl e =? s)%Z
+  | FUpdate q e => negb (q =? p) || (fe_ttl e =? s)%Z
+  | FFind _ | FList => true
+  end.
